@@ -66,6 +66,8 @@ type Graph struct {
 
 	pendingEdges []pendingEdge
 	live         map[*Node]bool
+	heads        map[*Ctx]map[*ssa.BasicBlock]*Node
+	RootCtx      *Ctx
 }
 
 type ExpandOpts struct {
@@ -77,6 +79,9 @@ type ExpandOpts struct {
 	Resolve func(site ssa.CallInstruction, ctx *Ctx) []*ssa.Function
 	// NodeCap bounds the graph size (0 = default).
 	NodeCap int
+	// RootCtx, if set, is the context of the root function (binds its parameters to a call site
+	// of an enclosing analysis so that terms are rendered in the caller's vocabulary).
+	RootCtx *Ctx
 }
 
 type funcTarget struct {
@@ -108,8 +113,13 @@ func BuildECFG(p *Prog, root *ssa.Function, opts ExpandOpts) *Graph {
 	if opts.NodeCap == 0 {
 		opts.NodeCap = 400000
 	}
-	g := &Graph{P: p, Root: root, opts: opts}
+	g := &Graph{P: p, Root: root, opts: opts, heads: map[*Ctx]map[*ssa.BasicBlock]*Node{}}
 	ctx := &Ctx{Fn: root}
+	if opts.RootCtx != nil {
+		ctx = opts.RootCtx
+		ctx.Fn = root
+	}
+	g.RootCtx = ctx
 	entry, exits := g.expand(root, ctx)
 	g.Entry = entry
 	g.Exits = exits
@@ -505,6 +515,7 @@ func (g *Graph) expand(fn *ssa.Function, ctx *Ctx) (*Node, []*Node) {
 	for _, b := range fn.Blocks {
 		first[b] = g.newNode(NInstr, nil, ctx) // filled below: acts as a no-op head
 	}
+	g.heads[ctx] = first
 	var exits []*Node
 	// collect defers (for RunDefers)
 	type deferSite struct {
@@ -628,7 +639,7 @@ func (g *Graph) expandCallFrom(n *Node, site ssa.CallInstruction, ctx *Ctx, tail
 			return
 		}
 	}
-	if ctx.Depth >= g.opts.MaxDepth {
+	if ctx.Depth-g.RootCtx.Depth >= g.opts.MaxDepth {
 		g.DepthCut = append(g.DepthCut, n)
 		return
 	}
@@ -991,14 +1002,11 @@ func commonName(cc *ssa.CallCommon) string {
 	if fn := cc.StaticCallee(); fn != nil {
 		if fn.Synthetic != "" && fn.Object() != nil {
 			if f, ok := fn.Object().(*types.Func); ok {
-				return f.FullName()
+				return genericName(f.FullName())
 			}
 		}
-		// instantiations: report the origin's name so that rules are not sensitive to type arguments
-		if o := fn.Origin(); o != nil {
-			return o.String()
-		}
-		return fn.String()
+		// instantiations: collapse type arguments so that rules are not sensitive to them
+		return genericName(fn.String())
 	}
 	if b, ok := cc.Value.(*ssa.Builtin); ok {
 		return b.Name()
@@ -1191,4 +1199,32 @@ func spilledResult(ret *ssa.Return, k int) ssa.Value {
 		}
 	}
 	return v
+}
+
+// genericName replaces every top-level [...] type-argument list in a function name by [_].
+func genericName(s string) string {
+	if !strings.Contains(s, "[") {
+		return s
+	}
+	var b strings.Builder
+	depth := 0
+	for _, r := range s {
+		switch r {
+		case '[':
+			if depth == 0 {
+				b.WriteString("[_")
+			}
+			depth++
+		case ']':
+			depth--
+			if depth == 0 {
+				b.WriteByte(']')
+			}
+		default:
+			if depth == 0 {
+				b.WriteRune(r)
+			}
+		}
+	}
+	return b.String()
 }
